@@ -67,7 +67,7 @@ Denote(e) ==
                         IN Go(1, <<>>)
 
 \* ---- choice.py: _optimize_char_class(singles, ranges) transcribed -------------------------
-\* normalise (swap reversed), sort, merge when s <= last.e + 1, drop covered singles;
+\* normalise (drop reversed = empty ranges), sort, merge when s <= last.e + 1, drop covered singles;
 \* the regex class it builds denotes  singles' (sorted, deduplicated)  union  merged
 SortedRanges(R) == \* R: set of <<s, e>> (normalised); returns them sorted by (s, e)
   LET RECURSIVE Go(_)
@@ -83,8 +83,8 @@ MergeSorted(L) ==
              IN IF acc = <<>> \/ s > acc[n][2] + 1 THEN Go(i + 1, Append(acc, <<s, e>>))
                 ELSE Go(i + 1, [acc EXCEPT ![n] = <<@[1], IF @[2] > e THEN @[2] ELSE e>>])
   IN Go(1, <<>>)
-MergeClass(singles, ranges) == \* singles: set of code points, ranges: set of <<s, e>> (possibly reversed)
-  LET norm   == {IF r[1] > r[2] THEN <<r[2], r[1]>> ELSE r : r \in ranges}
+MergeClass(singles, ranges) == \* singles: set of code points, ranges: set of <<s, e>> (possibly reversed = empty)
+  LET norm   == {r \in ranges : r[1] <= r[2]}
       merged == MergeSorted(SortedRanges(norm))
       kept   == {c \in singles : \A i \in 1..Len(merged) : ~(merged[i][1] <= c /\ c <= merged[i][2])}
   IN [singles |-> kept, merged |-> merged]
@@ -94,7 +94,7 @@ ClassSet(m) == m.singles \cup SetOf(m.merged)
 \* ---- the probe family for the sweep ------------------------------------------------------
 Bnd == {0, 1, 9, 10, 13, 32, 45, 47, 48, 57, 58, 64, 65, 90, 91, 92, 93, 94, 96, 97, 122, 123, 127, 128, 255, 256,
         55295, 55296, 57343, 57344, 65535, 65536, 1114110, 1114111}
-Ranges == {r \in {[k |-> "range", lo |-> x, hi |-> y] : x \in {0, 45, 65, 91, 97, 128, 55295, 65535}, y \in {57, 93, 122, 127, 255, 57344, 65536, 1114111}} : r.lo <= r.hi}
+Ranges == {[k |-> "range", lo |-> x, hi |-> y] : x \in {0, 45, 65, 91, 97, 128, 55295, 65535}, y \in {57, 93, 122, 127, 255, 57344, 65536, 1114111}}
 Singles == {[k |-> "str", s |-> <<c>>] : c \in {0, 10, 32, 34, 39, 45, 46, 91, 92, 93, 94, 36, 40, 41, 42, 43, 63, 123, 124, 125, 65, 97, 127, 128, 233, 55296, 65535, 65536, 1114111}}
 Insens == {[k |-> "istr", s |-> <<c>>] : c \in {65, 90, 97, 122, 64, 91, 48, 75}}
 Classes == {[k |-> "cls", n |-> n] : n \in {"ASCII_DIGIT", "ASCII_NONZERO_DIGIT", "ASCII_BIN_DIGIT", "ASCII_OCT_DIGIT", "ASCII_HEX_DIGIT",
@@ -116,7 +116,8 @@ Mixed == {Alt(<<R(97, 99), R(100, 102)>>),                       \* adjacent
           Alt(<<[k |-> "cls", n |-> "ASCII_HEX_DIGIT"], [k |-> "cls", n |-> "ASCII_ALPHA_UPPER"]>>),
           Alt(<<R(55295, 57344), S1(65535)>>), Alt(<<R(65535, 65536), R(1114110, 1114111), S1(0)>>),
           Alt(<<S1(91), S1(93), R(40, 41), S1(123), S1(125)>>),
-          Alt(<<R(0, 31), R(127, 159), S1(32)>>)}
+          Alt(<<R(0, 31), R(127, 159), S1(32)>>),
+          Alt(<<R(122, 97), R(100, 102)>>), Alt(<<R(122, 97), R(57, 48)>>), Alt(<<S1(120), R(122, 97)>>)}    \* reversed = empty
 Probes == Ranges \cup Singles \cup Insens \cup Classes \cup Mixed \cup {[k |-> "any"]}
 
 -----------------------------------------------------------------------------
@@ -137,14 +138,14 @@ Spec == Init /\ [][Next]_vars
 \* the merged class denotes exactly the union of its parts, no more and no fewer
 MergeSound == Mode = "algebra" =>
   LET m == MergeClass(x.singles, x.ranges)
-      parts == x.singles \cup UNION {(IF r[1] > r[2] THEN r[2] ELSE r[1])..(IF r[1] > r[2] THEN r[1] ELSE r[2]) : r \in x.ranges}
+      parts == x.singles \cup UNION {r[1]..r[2] : r \in x.ranges}        \* a reversed range is the empty interval
   IN /\ ClassSet(m) = parts
      /\ Canonical(m.merged)
      /\ m.singles \cap SetOf(m.merged) = {}
 \* the interval-list union used by Denote is sound on the same cases
 UnionSound == Mode = "algebra" =>
-  LET L == UnionL(<<>>, SortedRanges({IF r[1] > r[2] THEN <<r[2], r[1]>> ELSE r : r \in x.ranges}))
-  IN Canonical(L) /\ SetOf(L) = UNION {(IF r[1] > r[2] THEN r[2] ELSE r[1])..(IF r[1] > r[2] THEN r[1] ELSE r[2]) : r \in x.ranges}
+  LET L == UnionL(<<>>, SortedRanges({r \in x.ranges : r[1] <= r[2]}))
+  IN Canonical(L) /\ SetOf(L) = UNION {r[1]..r[2] : r \in x.ranges}
 ClassRelations ==
   /\ UnionL(ClassL("ASCII_ALPHA"), ClassL("ASCII_DIGIT")) = ClassL("ASCII_ALPHANUMERIC")
   /\ UnionL(ClassL("ASCII_ALPHA_LOWER"), ClassL("ASCII_ALPHA_UPPER")) = ClassL("ASCII_ALPHA")
